@@ -541,6 +541,8 @@ def run_check(spec, tier, seed):
                 continue
             if 'why_regex' in pat and not re.search(pat['why_regex'], why or ''):
                 continue
+            if 'trace_regex' in pat and not any(re.search(pat['trace_regex'], l) for l in (it or [])):
+                continue
             return k
         return None
 
